@@ -117,6 +117,10 @@ def concrete_search(qn, c: S.Contract, pid, rng, budget, want=None, collect_path
             return n, v, saved, mism
         except conc.Unsupported as u:
             return n, None, None, mism
+        except Exception as ex:     # noqa: BLE001
+            # the interpreter met something in the (changed) function it was not built for: no verdict from concrete runs
+            print(f"note: concrete interpretation of {qn} gave up: {type(ex).__name__}: {ex}")
+            return n, None, None, mism
         # cross-check against the real (compiled) function: same result, same arrays
         if c.call is not None:
             real_in = copy_inputs(saved)
@@ -340,6 +344,13 @@ def run_property(plan: Plan, tier: str, seed: int, contracts_mod_names, replay=N
     undec = [o for o in mine if o.result == "undecided"]
     errors = [o for o in everything if o.result == "error"]
     vacuous = [o for o in everything if o.result == "vacuous"]
+    for o in list(vacuous):
+        if o.fn in restructured:
+            # an unreachable return path / probe in a restructured function (e.g. an added guard that the pre-condition
+            # excludes): nothing is proved from it, but it is no fault of the checker either
+            vacuous.remove(o)
+            o.result, o.reason = "undecided", "unreachable under the contract's pre-condition after the function was restructured"
+            print(f"note: {o.name}: unreachable under the pre-condition (the function was restructured)")
     # must_fail probes: per function and clause, at least one return path must leave it unproved
     probes = {}
     for o in everything:
